@@ -15,7 +15,7 @@
       op     :=  opcode args   (see parse_op)
     Output: records separated by code point 30; the first record is the initial state, then
     one record per operation.  Inside a record fields are separated by 31:
-      outcome | iter order (part indices, comma separated) | changed parts | package rels or = | caches | saved package
+      outcome:invb:tables_okb | iter order (part indices, comma separated) | changed parts | package rels or = | caches | saved package
     Lower levels use the separators 29, 28, 27, 26, 25 (see the check for the reader). *)
 From V.lib Require Import Prelude Wire.
 From V.model Require Import PackUri PkgOps.
@@ -217,8 +217,8 @@ Definition sh_outcome (o : outcome) : str :=
   | Saved _ => [83%N]                                (* S *)
   end.
 
-Definition sh_record (tab : list str) (old new : state) (o : outcome) : str :=
-  joinc sep2 [ sh_outcome o;
+Definition sh_record (tab : list str) (T : tables) (old new : state) (o : outcome) : str :=
+  joinc sep2 [ sh_outcome o ++ [58%N] ++ show_bool (invb T new) ++ [58%N] ++ show_bool (tables_okb T);
                join_with [44%N] (map show_nat (iter_pids new));
                joinc sep3 (changed tab O (st_parts old) (st_parts new));
                (if list_eqb relr_eqb (st_prels old) (st_prels new) then [61%N]
@@ -231,7 +231,7 @@ Fixpoint run_hist (lz : bool) (tab : list str) (T : tables) (s : state) (ops : l
   | [] => []
   | o :: r =>
       let '(s1, out) := step lz T s o in
-      sh_record tab s s1 out :: run_hist lz tab T s1 r
+      sh_record tab T s s1 out :: run_hist lz tab T s1 r
   end.
 
 Definition empty_state (s : state) : state := mkS [] [] (st_pres s) (st_mrid s) false None None.
@@ -257,7 +257,7 @@ Definition run_c02 (args : list str) : str :=
         | Some (i, []) =>
             let lz := match m with [99%N] => true | _ => false end in
             let s0 := in_s i in
-            joinc sep1 (sh_record (in_tab i) (empty_state s0) s0 Done
+            joinc sep1 (sh_record (in_tab i) (in_T i) (empty_state s0) s0 Done
                         :: run_hist lz (in_tab i) (in_T i) s0 (in_ops i))
         | _ => w_badcase
         end
